@@ -108,3 +108,11 @@ CLAIMS["C13"] = (
     "Relies on the sorter returning a topological order (C02). Several rules match the cache builder's statement shapes; an unrecognised refactoring is reported rather than silently passed.",
     "DESIGN.md section 4 C13",
 )
+CLAIMS["C01"] = (
+    "extraction and normal-form comparison of the accumulation terms of the two right-hand-side assemblers (sibling agreement against a specification), order/length provenance checks, must-depend dataflow and call-graph reachability of the query entry points",
+    "Decides the assembly STRUCTURE for all models and states, not the numbers: (A1) Model.__call__ and Model._get_right_hand_side both accumulate dxdt[cpd] += coef*values[flux] over the static table and over the dynamic table with the coefficient evaluated on the same value mapping that holds the fluxes, into a zero vector over all variables, at the supplied state and time; "
+    "(A2) the returned vector, the positional pairing, the integrator's y0 tuple and output column labels follow the declaration order of the variables with full length; (A3) _get_args builds frozen parameters | variables | data with the supplied time and evaluates every dynamic name in cached order; "
+    "(A4) the stoichiometry tables are filled from every reaction and surrogate entry; (A5) flux queries request the same classes, every entry point evaluates through _get_args, component classes compute fn(*(values[a] for a in args)). Hence all entry points compute the same sum by construction; numerical equality and user-function semantics are not decided.",
+    "Assumes the cached evaluation order is topological (C02/C13) and dict/zip(strict) semantics.",
+    "DESIGN.md section 4 C01",
+)
